@@ -496,6 +496,55 @@ def run(loader, R, tier):
     # ---------------------------------------------------------------- R5.5
     truncating_ops(prog, R)
 
+    # ---------------------------------------------------------------- R5.6
+    # a binary number operation guards a fast path with a test of *both*
+    # operands; a conjunction that tests the same operand twice (copy and
+    # paste) leaves the other operand unchecked
+    R.rule("R5.6", "no condition in the exact number classes repeats an "
+                   "operand test verbatim inside one && / || chain")
+    ncond = 0
+    ndup_control = 0
+    for u, f in sorted(prog.functions.items(), key=lambda kv: kv[1]["qn"]):
+        control = f["qn"].startswith("verif_positive::")
+        if not f.get("body") or f.get("dependent") or not (
+                control or f.get("cls") in NUMCLS):
+            continue
+        seen_nodes = set()
+        for n in walk(f["body"]):
+            if n.get("k") != "bin" or n.get("op") not in ("&&", "||") \
+                    or id(n) in seen_nodes:
+                continue
+            ops = []
+
+            def flat(x, op=n["op"]):
+                if x.get("k") == "bin" and x.get("op") == op:
+                    seen_nodes.add(id(x))
+                    for a in x["a"]:
+                        flat(a)
+                else:
+                    ops.append(x)
+            flat(n)
+            ncond += 1
+            texts = [show(o) for o in ops]
+            dup = [t for t in set(texts) if texts.count(t) > 1
+                   and any(y.get("k") in ("call", "mcall")
+                           for o in ops if show(o) == t for y in walk(o))]
+            if control:
+                ndup_control += len(dup)
+                continue
+            R.instance("R5.6", "%s@%s" % (short(f["qn"]), n.get("l")))
+            if dup:
+                R.violation(
+                    "R5.6", short(f["qn"]), prog.loc(f, n.get("l")),
+                    "%s tests `%s` twice in one `%s` chain: the second "
+                    "occurrence was meant for the other operand, which is "
+                    "now unchecked (e.g. a machine-word fast path taken "
+                    "for a divisor that does not fit a machine word)" % (
+                        short(f["qn"]), dup[0][:60], n["op"]))
+    R.floor("&&/|| chains in the number classes", ncond, 6)
+    R.floor("positive control (verif_positive::both_fit) recognised",
+            ndup_control, 1)
+
     # ---------------------------------------------------------------- R5.4
     R.rule("R5.4", "Integer and Rational overloads of the Complex arithmetic "
                    "members have the same operator signature")
